@@ -45,7 +45,10 @@ func p(t int64, v float64) core.Pt { return core.Pt{T: t, V: core.F(v)} }
 func c02Contexts() []string {
 	return []string{`a`, `a offset 30s`, `a offset -30s`, `a @ 600.000`, `a @ start()`, `a @ end()`, `-a`, `a + 0`, `a @ 600.000 offset 45s`,
 		// two selectors with the same matchers in one query share pooled selects
-		`a @ end() + a`, `a + a @ end()`, `a @ start() + a`, `a offset 30s + a`, `a @ 600.000 + a`}
+		`a @ end() + a`, `a + a @ end()`, `a @ start() + a`, `a offset 30s + a`, `a @ 600.000 + a`,
+		// the same selection when the query is answered by the fallback path (the
+		// per-query lookback has to reach that engine too)
+		`round(a)`, `sort(a offset 30s)`}
 }
 
 func init() {
@@ -110,13 +113,15 @@ func init() {
 				for _, lay := range layouts {
 					data := []core.SeriesSpec{{L: `a{l="0"}`, S: lay}}
 					for _, q := range c02Contexts() {
+						oq := o
+						oq.Fallback = strings.HasPrefix(q, "round(") || strings.HasPrefix(q, "sort(")
 						for _, n := range nsteps {
 							// the grid contains t*: start = t* - k*step
 							k := n / 2
 							w := core.Range(tstar-int64(k)*step, step, n)
-							emit(&core.Case{Q: q, Data: data, W: w, O: o, Note: "boundary-layout"})
+							emit(&core.Case{Q: q, Data: data, W: w, O: oq, Note: "boundary-layout"})
 						}
-						emit(&core.Case{Q: q, Data: data, W: core.Instant(tstar), O: o, Note: "boundary-layout"})
+						emit(&core.Case{Q: q, Data: data, W: core.Instant(tstar), O: oq, Note: "boundary-layout"})
 					}
 				}
 			}
@@ -332,6 +337,25 @@ func init() {
 					if mask%8 == 7 || c.Thorough() {
 						for _, qp := range qparams {
 							emit(&core.Case{Q: fmt.Sprintf("quantile %s (%s, a)", g, qp), Data: data, W: w, O: o, Note: fmt.Sprintf("occupancy %03x", mask)})
+						}
+					}
+				}
+			}
+		})
+		// k-aggregations over a group with a NaN member: every arrangement of the values
+		// over the series (which member reaches the heap when), every k up to the group size
+		runCases(c, "C04", func(emit func(*core.Case)) {
+			for _, vals := range [][]float64{{5, math.NaN(), 1, 2}, {-1, math.NaN(), -5, 2}, {4, math.NaN(), 1, 2, 3}, {math.Inf(1), math.NaN(), math.Inf(-1), 0}} {
+				for _, pm := range permutations(len(vals)) {
+					var data []core.SeriesSpec
+					for i, j := range pm {
+						data = append(data, gen.Regular(fmt.Sprintf(`a{l="0",m="%d"}`, i), 0, 30000, 3, vals[j], 0))
+					}
+					for k := 1; k <= len(vals); k++ {
+						for _, kop := range []string{"topk", "bottomk"} {
+							for _, pr := range []int{2, 8} {
+								emit(&core.Case{Q: fmt.Sprintf("%s(%d, a)", kop, k), Data: data, W: core.Range(0, 30000, 3), O: core.Opts{Optimizers: "none", Procs: pr}, Note: "NaN arrangement"})
+							}
 						}
 					}
 				}
